@@ -19,8 +19,8 @@ theorem Post.weaken_le {K : SCtx} {k : Ctx} {sub : Bool} {le q : Prop} {s s' : S
     obtain ⟨h1, h2, h3, h4, h5, h6, h7, h8, h9⟩ := h
     exact ⟨h1, h2, h3, h4, h5, h6, h7, h8, fun _ => h9 trivial⟩
   | ret =>
-    obtain ⟨h1, h2, h3, h4, h5, h6, h7, h8, h9⟩ := h
-    exact ⟨h1, h2, h3, h4, h5, h6, h7, fun _ => h8 trivial, h9⟩
+    obtain ⟨h1, h2, h3, h4, h5, h6, h8, h9⟩ := h
+    exact ⟨h1, h2, h3, h4, h5, h6, fun _ => h8 trivial, h9⟩
   | exit => exact h
 
 theorem noFlags_of_exit {s : St} (hx : s.exit = {}) : NoFlags s := by
@@ -77,8 +77,8 @@ theorem Post.uncond {K : SCtx} {k k' : Ctx} {sub : Bool} {le q q' : Prop} {s s1 
     obtain ⟨_, _, _, _, _, _, hl, _⟩ := h
     exact absurd hl (not_levels_headFalse K m)
   | ret =>
-    obtain ⟨h1, h2, h3, h4, h5, h6, h7, _, h9⟩ := h
-    refine ⟨h1, h0.uncond h2, h3.uncond, h4, h5, h6, h7, fun x => x.elim, ?_⟩
+    obtain ⟨h1, h2, h3, h4, h5, h6, _, h9⟩ := h
+    refine ⟨h1, h0.uncond h2, h3.uncond, h4, h5, h6, fun x => x.elim, ?_⟩
     intro hx
     have := (h9 hx).2.1
     rw [h3.ne] at this
